@@ -327,8 +327,11 @@ def reachable(g, roots):
 
 def callers(fs, callee_pred):
     """[(fn, call node)] for every call whose resolved callee satisfies pred."""
+    from .effects import _fully_inlined
     out = []
     for f in fs.defined():
+        if f.d.get('_new_helper') and _fully_inlined(fs, f):
+            continue            # a fully inlined helper that the reviewed inventory does not know: its calls are the calls of its callers
         for n in f.nodes():
             if 'callee' in n and callee_pred(n):
                 out.append((f, n))
